@@ -20,7 +20,13 @@ pub struct Case {
     pub a_alt: NumSpec,
     pub f: Fl,
     pub seq: Vec<NumSpec>,
+    /// comparison-only value pairs from the table of special floats (signed zeros, NaN,
+    /// infinities, neighbours, subnormals); the derivative content is that of a and b
+    #[serde(default)]
+    pub special: Vec<(Fl, Fl)>,
 }
+
+const SPECIALS: [f64; 12] = [0.0, -0.0, f64::NAN, f64::INFINITY, f64::NEG_INFINITY, 1.0, 1.0000000000000002, -1.0, 5e-324, -5e-324, f64::MAX, f64::MIN_POSITIVE];
 
 pub struct C19;
 
@@ -125,6 +131,27 @@ macro_rules! check_typed {
                 let exp_ops = [exp == Some(Ordering::Less), matches!(exp, Some(Ordering::Less | Ordering::Equal)), exp == Some(Ordering::Greater), matches!(exp, Some(Ordering::Greater | Ordering::Equal))];
                 if got != exp || ops != exp_ops {
                     $v.fail(format!("comparison through the number container differs from the float comparison | {}", name), format!("values {:e}, {:e}, float {:e}: partial_cmp {:?} (float comparison {:?}), [<, <=, >, >=] = {:?}", x, y, f, got, exp, ops));
+                    return;
+                }
+            }
+        }
+        // ---- special values (signed zeros, NaN, infinities, neighbours): comparisons only
+        for (p, q) in $c.special.iter().map(|(p, q)| (p.0, q.0)) {
+            let (sa, sb): ($T, $T) = ($c.a.with_real(p).$mk(), $c.b.with_real(q).$mk());
+            let (na, nb) = (wrap(sa.clone()), wrap(sb.clone()));
+            let exp = p.partial_cmp(&q);
+            let exp_ops = [p < q, p <= q, p > q, p >= q];
+            let forms: [(&str, Option<Ordering>, [bool; 4]); 6] = [
+                ("number vs number", sa.partial_cmp(&sb), [sa < sb, sa <= sb, sa > sb, sa >= sb]),
+                ("number vs float", sa.partial_cmp(&q), [sa < q, sa <= q, sa > q, sa >= q]),
+                ("float vs number", p.partial_cmp(&sb), [p < sb, p <= sb, p > sb, p >= sb]),
+                ("container vs container", na.partial_cmp(&nb), [na < nb, na <= nb, na > nb, na >= nb]),
+                ("container vs float", na.partial_cmp(&q), [na < q, na <= q, na > q, na >= q]),
+                ("float vs container", p.partial_cmp(&nb), [p < nb, p <= nb, p > nb, p >= nb]),
+            ];
+            for (name, got, ops) in forms {
+                if got != exp || ops != exp_ops {
+                    $v.fail(format!("comparison of special values differs from the float comparison | {}", name), format!("{:?} vs {:?}: partial_cmp {:?} (floats {:?}), [<, <=, >, >=] = {:?} (floats {:?})", p, q, got, exp, ops, exp_ops));
                     return;
                 }
             }
@@ -241,6 +268,8 @@ impl Property for C19 {
         v.label_if(x == y, "values:equal");
         v.label_if(f < 0.0, "float:negative");
         v.label_if(c.seq.is_empty(), "sum:empty");
+        v.label_if(c.special.iter().any(|(p, q)| p.0 == 0.0 && q.0 == 0.0 && p.0.is_sign_negative() != q.0.is_sign_negative()), "special:signed-zero-pair");
+        v.label_if(c.special.iter().any(|(p, q)| p.0.is_nan() || q.0.is_nan()), "special:nan");
         v.nt(x < 0.0 || y < 0.0 || f < 0.0);
         match catch(|| {
             let mut vv = Verdict::new();
@@ -259,19 +288,20 @@ impl Property for C19 {
 
     fn plan(&self, tier: Tier) -> Vec<Stage<Case>> {
         vec![Stage::random("random", tier.pick(500_000, 12_000_000), || {
-            (1u8..=2, num_spec(), num_spec(), num_spec(), real_value(), proptest::collection::vec(num_spec(), 0..6), prop::bool::weighted(0.15)).prop_map(
-                |(kind, a, mut b, a_alt, f, seq, equal)| {
+            (1u8..=2, num_spec(), num_spec(), num_spec(), real_value(), proptest::collection::vec(num_spec(), 0..6), prop::bool::weighted(0.15), proptest::collection::vec((0usize..12, 0usize..12), 0..3)).prop_map(
+                |(kind, a, mut b, a_alt, f, seq, equal, special)| {
                     if equal {
                         b.real = a.real;
                     }
-                    Case { kind, a, b, a_alt, f, seq }
+                    let special = special.into_iter().map(|(i, j)| (Fl(SPECIALS[i]), Fl(SPECIALS[j]))).collect();
+                    Case { kind, a, b, a_alt, f, seq, special }
                 },
             )
         })]
     }
 
     fn rule(&self) -> String {
-        "random (kind, two numbers with arbitrary derivative content and values of either sign incl. equal values, an alternative derivative content for the first, a float of either sign, a sequence of 0-5 numbers). Oracle: <,<=,>,>=,partial_cmp between numbers and with a float on either side == the float comparison of the values and unchanged when derivatives are replaced, also through the generic number container in all six operand positions (container/container, container/float container, container/float and the mirror images); a == b => Equal; abs flips value and every derivative iff the value is negative; a % b, a % float, float % b == a - b*trunc(a/b) by name in value and derivatives (1e-12) and in value == the float remainder; owned forms == reference forms; sum == left fold from zero by name, empty sum == variable-free zero; x+0, 0+x, x*1, 1*x == x by name; is_zero <=> value 0 and all derivatives 0. Non-trivial: a negative operand, divisor or float.".into()
+        "random (kind, two numbers with arbitrary derivative content and values of either sign incl. equal values, an alternative derivative content for the first, a float of either sign, a sequence of 0-5 numbers). Oracle: <,<=,>,>=,partial_cmp between numbers and with a float on either side == the float comparison of the values and unchanged when derivatives are replaced, also through the generic number container in all six operand positions (container/container, container/float container, container/float and the mirror images); a == b => Equal; 0-2 pairs from a table of special floats (signed zeros, NaN, infinities, neighbouring doubles, subnormals, MAX) compared in six operand forms against the float comparison; abs flips value and every derivative iff the value is negative; a % b, a % float, float % b == a - b*trunc(a/b) by name in value and derivatives (1e-12) and in value == the float remainder; owned forms == reference forms; sum == left fold from zero by name, empty sum == variable-free zero; x+0, 0+x, x*1, 1*x == x by name; is_zero <=> value 0 and all derivatives 0. Non-trivial: a negative operand, divisor or float.".into()
     }
 
     fn floors(&self, tier: Tier) -> Vec<Floor> {
@@ -283,6 +313,8 @@ impl Property for C19 {
             Floor { label: "signs:a-b-", min: n * 15 / 100 },
             Floor { label: "values:equal", min: n / 20 },
             Floor { label: "sum:empty", min: n / 20 },
+            Floor { label: "special:signed-zero-pair", min: n / 200 },
+            Floor { label: "special:nan", min: n / 50 },
         ]
     }
 
